@@ -1168,6 +1168,24 @@ class Evaluator:
             r = self.hooks['method:' + meth](self, [base] + list(args), kwargs)
             if r is not NotImplemented:
                 return r
+        if isinstance(base, Const) and isinstance(base.v, str):
+            cargs = [a.v for a in args if isinstance(a, Const)]
+            if len(cargs) == len(args) and not kwargs and meth in (
+                    'lower', 'upper', 'replace', 'strip', 'lstrip', 'rstrip', 'startswith', 'endswith',
+                    'split', 'title', 'capitalize', 'isdigit', 'find', 'count'):
+                try:
+                    r = getattr(base.v, meth)(*cargs)
+                except Exception:
+                    return Unknown(f'str.{meth} failed')
+                if isinstance(r, list):
+                    return Tup(tuple(Const(x) for x in r), 'list')
+                if isinstance(r, bool) or isinstance(r, str):
+                    return Const(r)
+                return sp.Integer(r)
+            if meth == 'format':
+                return App('str.format', (base,) + tuple(args) + tuple(
+                    Tup((Const(k), v)) for k, v in sorted(kwargs.items(), key=lambda kv: kv[0]) if k != '**') + (
+                    (kwargs['**'],) if '**' in kwargs else ()))
         if isinstance(base, DictV):
             if meth == 'update':
                 for a in args:
@@ -1300,6 +1318,9 @@ class Evaluator:
                 return App('copy', (a[0],))
             return a[0]
         if name == 'isinstance' and len(a) == 2:
+            r = _fold_isinstance(self.m, a[0], a[1])
+            if r is not None:
+                return Const(r)
             return App('isinstance', tuple(a))
         if name == 'callable':
             if a and isinstance(a[0], (ExtRef, FuncRef, ClassRef)):
@@ -1358,6 +1379,49 @@ class Evaluator:
                 return BoolT({'and_': 'and', 'or_': 'or', 'xor': 'xor'}[short], tuple(a))
         return App(name, tuple(a) + tuple(Tup((Const(k), v)) for k, v in sorted(
             kwargs.items(), key=lambda kv: kv[0])))
+
+
+def _cls_names(t):
+    if isinstance(t, ClassRef):
+        return [('repo', t.ci)]
+    if isinstance(t, ExtRef):
+        return [('ext', t.name.split('.')[-1])]
+    if isinstance(t, Tup):
+        out = []
+        for i in t.items:
+            r = _cls_names(i)
+            if r is None:
+                return None
+            out += r
+        return out
+    return None
+
+
+def _fold_isinstance(model, v, t):
+    """Decide isinstance(v, t) when the abstract value's class is known."""
+    names = _cls_names(t)
+    if names is None:
+        return None
+    if isinstance(v, Obj) and getattr(v, 'typed', True) is False:
+        return None
+    if isinstance(v, Obj) and (v.ci is not None or v.cls in ('SkyCoord', 'RegionMeta', 'RegionVisual')):
+        res = False
+        for kind, c in names:
+            if kind == 'repo':
+                if v.ci is not None and model.is_subclass(v.ci, c.name):
+                    res = True
+                elif v.ci is None and v.cls == c.name:
+                    res = True
+            elif v.cls == c:
+                res = True
+            elif v.ci is None and kind == 'ext' and c in ('dict',) and v.cls in ('RegionMeta', 'RegionVisual'):
+                res = True
+        return res
+    if isinstance(v, DictV):
+        return any((k == 'ext' and c == 'dict') for k, c in names) or None
+    if isinstance(v, Const) and isinstance(v.v, str):
+        return any(k == 'ext' and c == 'str' for k, c in names)
+    return None
 
 
 def unq(v):
